@@ -63,7 +63,7 @@ Section CommentFmt.
   Variable alnum : bytes -> bool.
 
   Definition comment_is_separator (comment : bytes) : bool :=
-    let c := trim_ascii_end comment in
+    let c := trim_blank_end comment in   (* since the repair of F40: the lexer's blanks, not only ASCII whitespace *)
     (10 <=? N.of_nat (length c))
     && (match c with [] => false | _ :: _ => negb (alnum (first_char c)) end)
     && all_chunks_eq (length c) (first_char c) c.
